@@ -406,6 +406,13 @@ def part_construct(ctx, shard):
         if shape != ():
             judge("list*Unit", data.tolist() * m, np.asarray(data.tolist()), None, None, m)
             judge("Unit*list", m * data.tolist(), np.asarray(data.tolist()), None, None, m)
+        # a unit-carrying operand times/over a Unit is a new object too, never a view of the operand
+        sec = Unit("s")
+        for rname, fn in (("unyt*Unit", lambda x: x * sec), ("Unit*unyt", lambda x: sec * x), ("unyt/Unit", lambda x: x / sec), ("Unit/unyt", None), ("unyt*sameUnit", lambda x: x * m)):
+            if fn is None:
+                continue
+            srcq = unyt_quantity(data[()], "km") if shape == () else unyt_array(data.copy(), "km")
+            judge(rname, fn(srcq), data, srcq, False, None)
         q = unyt_quantity(2.0, "m")
         src = data.copy()
         judge("quantity*ndarray", q * src, 2.0 * data.astype(float), src, False, m)
